@@ -496,8 +496,28 @@ impl OtlpTransportBuilder {
                         let metrics = metrics.clone();
 
                         async move {
-                            let mut status = 0;
-                            let mut msg = String::new();
+                            let http_status = res.http_status();
+
+                            // gRPC responses are always carried by a 2xx; anything else
+                            // has come from something between us and the server, like a proxy
+                            if http_status < 200 || http_status >= 300 {
+                                metrics.grpc_batch_failed.increment();
+
+                                return Err(Error::msg(format_args!(
+                                    "OTLP gRPC server responded HTTP {http_status}"
+                                )));
+                            }
+
+                            // A server that fails a request without sending a message reports
+                            // the status in the response headers instead of in a trailer
+                            let mut status = res
+                                .header("grpc-status")
+                                .and_then(|status| status.parse().ok())
+                                .unwrap_or(0);
+                            let mut msg = res
+                                .header("grpc-message")
+                                .map(String::from)
+                                .unwrap_or_default();
 
                             res.stream_payload(
                                 |_| {},
